@@ -188,6 +188,17 @@ func (c *Contract) Special() bool {
 // ------------------------------------------------------------ arms
 
 func (r *Run) checkArms(ld *Loaded, encs []Encoding, comps func(e Encoding) map[string]bool, frame, safety bool) {
+	var compMask func(string) bool
+	if comps != nil {
+		compMask = func(n string) bool {
+			for _, e := range encs {
+				if comps(e)[n] {
+					return true
+				}
+			}
+			return false
+		}
+	}
 	if r.only != "" {
 		var f []Encoding
 		for _, e := range encs {
@@ -262,14 +273,16 @@ func (r *Run) checkArms(ld *Loaded, encs []Encoding, comps func(e Encoding) map[
 		keys = append(keys, k)
 	}
 	sort.Strings(keys)
+	var bad []*OblResult
 	for _, k := range keys {
 		o := byEnc[k]
 		r.add(o)
 		if o.Status == "discharged" {
 			continue
 		}
-		r.reportFailure(ld, o, nil)
+		bad = append(bad, o)
 	}
+	r.reportFailures(ld, bad, compMask)
 }
 
 func init() {
